@@ -13,6 +13,28 @@ CHECKS = {
             "of raised error must be equal. Sampled; exact (dyadic) arithmetic so equality is exact and guards cannot flip.",
             "Trusts vlib/refexec.py as the meaning of 'the builder calls one after another' (arrays follow Python reference semantics for plain copies); runs are compared up to the first step that leaves the exact domain.",
             "DESIGN.md 2/C01"),
+    "C02": ("Hypothesis-generated single-phase builder programs x all/sampled linear extensions of the recorded graph; oracle = independent statement-level executor vs program-order reference",
+            "For each generated program (dense name reuse; reads in every syntactic position; non-assignments interleaved) the recorded depends_on/condition graph is executed in every linear "
+            "extension when there are <= 400 (quick) / 5000 (thorough), otherwise in adversarial and random samples; events, exit kind and final values of all variables must equal the "
+            "program-order run, no unset variable may be read, and builder-issued names must be new. Exhaustive over schedules for small programs, sampled otherwise.",
+            "Calls are assumed pure (as the builder does); temporaries are not compared after an early exit; statement executor and reference are mine (vlib/sched.py, vlib/refexec.py).",
+            "DESIGN.md 2/C02"),
+    "C08": ("Hypothesis-generated programs run through the real interpreter with a recording variable store; oracle = observed accesses within declared read/write sets, identity-mapping invariance",
+            "Every (statement, state) execution over 1-3 steps of generated programs is observed through a dict subclass plus array snapshots (element writes); observed reads must lie in declared "
+            "reads+writes+loop counters and assignments in declared writes+loop counters; hand-written-style guard variants are guard-evaluated; map_expressions with two identity mappers must change nothing. Sampled.",
+            "Observation relies on the interpreter going through its context dict for every variable access (it does: EvaluationMapper.map_variable, exec_*).",
+            "DESIGN.md 2/C08"),
+    "C09": ("Hypothesis-generated typed programs: infer_kinds table vs values the real interpreter stores; exhaustive built-in table (kinds x values) vs builtins_python",
+            "On programs where inference succeeds every written variable must have a non-None kind and every stored value (recording store, 1-3 steps, program order and reversed presentation) must conform to it; "
+            "complex scalars/arrays, loop counters, user-type vectors (tagged ndarray subclass), powers and re-use of temporary names with other kinds in other phases are generated. All 13 built-ins are compared "
+            "with their declared result kinds over every argument-kind tuple with concrete values.",
+            "int conforms to Scalar(real); exponents are non-negative integer constants; programs on which inference raises are counted and skipped.",
+            "DESIGN.md 2/C09"),
+    "C14": ("exhaustive unify laws over the 9-kind universe (81 pairs, 729 triples) + Hypothesis programs and adversarial statement lists x permutations x PYTHONHASHSEED child processes; oracle = equal tables",
+            "Idempotence, commutativity and associativity 'wherever defined' are checked on all pairs/triples; generated programs and def-order-free adversarial statement lists are inferred in 8 (quick) / 24 (thorough) "
+            "presentation orders of statements and phases, and re-inferred from the builder's frozensets in child processes under 4/16 hash seeds; tables or failure classes must coincide.",
+            "Programs assigning incompatible kinds to one variable are a pinned known finding and are not generated; exception types of failing inferences are not compared.",
+            "DESIGN.md 2/C14"),
     "C10": ("exhaustive enumeration of small methods (graphs x dangling/cross-phase edges x switch targets x flag patterns) + Hypothesis random methods; oracle = independent well-formedness checker",
             "verify_code is compared with an independent checker on every digraph on <=4 statements (thorough; <=3 quick), every dependency-set assignment over own/dangling/other-phase ids on <=3 statements, "
             "and switch/flag variants; accepted methods are pushed through the interpreter and both generators; a 20 s alarm per case decides 'never hangs'. Exhaustive below the bound, sampled above.",
